@@ -330,11 +330,19 @@ PLANS["C03"] = Plan(
 PLANS["C17"] = Plan(
     "C17", "other",
     functions=["moptipyapps.binpacking2d.instgen.errors:Errors.evaluate",
+               "moptipyapps.binpacking2d.instgen.hardness:Hardness.evaluate",
+               "moptipyapps.binpacking2d.instgen.hardness:Hardness.evaluate#term",
+               "moptipyapps.binpacking2d.instgen.hardness:Hardness.evaluate#clamped",
+               "moptipyapps.binpacking2d.instgen.errors_and_hardness:ErrorsAndHardness.evaluate",
                "moptipyapps.binpacking2d.instgen.inst_decoding:InstanceDecoder.decode#split-cut",
                "moptipyapps.binpacking2d.instgen.inst_decoding:InstanceDecoder.decode#area-floor",
                "moptipyapps.binpacking2d.instgen.inst_decoding:InstanceDecoder.decode#slack-cut"],
     bounded=[bounded.instgen.harness],
-    explanation="proved: instgen.Errors.evaluate clamps its result to [0, 1] (block contract on the return statement); three "
+    alternatives=[(["moptipyapps.binpacking2d.instgen.hardness:Hardness.evaluate#clamped"],
+                   ["moptipyapps.binpacking2d.instgen.hardness:Hardness.evaluate#term",
+                    "moptipyapps.binpacking2d.instgen.hardness:Hardness.evaluate"])],
+    explanation="proved: instgen.Errors.evaluate, Hardness.evaluate and ErrorsAndHardness.evaluate clamp their results to [0, 1] (block contracts on "
+                "the return statements); three "
                 "Hoare triples on the real statements of InstanceDecoder.decode that carry the area argument: a splitting cut "
                 "(phase 1) replaces one item by two positive parts of the same total size or changes nothing; after phase 1 "
                 "the area is min_bins * bin area and the floor min_area exceeds (min_bins - 1) * bin area; a slack cut (phase 2) "
@@ -342,10 +350,11 @@ PLANS["C17"] = Plan(
                 "positive item - for every item, cut dimension and selector value. bounded: "
                 "post-condition of InstanceDecoder.decode monitored on templates x slack x vectors incl. the extreme values and "
                 "their float neighbours (name, bin size, item count, total area in ((min_bins-1)*A, min_bins*A], lower bound == "
-                "min_bins, repeatability), Errors == 0 for the template",
+                "min_bins, repeatability), Errors == 0 for the template; Hardness and ErrorsAndHardness (tiny budgets) in [0, 1] and "
+                "Hardness identical for three evaluations of the same decoded instance",
     assumptions=["InstanceDecoder.decode as a whole (list-of-lists surgery, float-to-int item selection, merging, shuffling) is not "
                  "under a deductive contract: the three block contracts cover its arithmetic core, the rest is bounded only; "
-                 "in the block contracts the selected item is a two-cell integer array and `items.append` is a summary", "Hardness repeatability (runs inner optimisers): not covered",
+                 "in the block contracts the selected item is a two-cell integer array and `items.append` is a summary", "Hardness repeatability (runs inner optimisers): bounded only, on a few decoded instances with max_fes=40",
                  "'can be packed into exactly min_bins bins' is covered through the area/lower-bound pair only"],
 )
 
